@@ -43,13 +43,14 @@ Fixpoint all_agree (s : srv) (b : bot) (acts : list action) : bool :=
   end.
 End Run.
 
-(* ---- the decidable domain: histories without the three defect triggers ---- *)
+(* ---- the decidable domain: histories without the remaining defect trigger (int() coercion of mode parameters,
+        finding F10c); NAMES must be multi-prefix (otherwise lower flags are not disclosed).  Case-only nick changes and
+        userhost-in-names NAMES are inside the domain since the repairs of F10 and F10b. ---- *)
 Definition canonical_arg (a : str) : bool :=
   match py_int a with Some z => seq_eqb (py_str_Z z) a | None => true end.
 Definition action_dom (a : action) : bool :=
   match a with
-  | ANick n new => negb (feq n new)
-  | ANames _ mp' uh' => mp' && negb uh'
+  | ANames _ mp' _ => mp'
   | AMode _ _ chgs => forallb (fun g => match snd g with Some a => canonical_arg a | None => true end) chgs
   | _ => true
   end.
@@ -73,9 +74,10 @@ Definition ends_agreeing (acts : list action) : bool :=
 
 Lemma pre_agrees : dom pre = true /\ ends_agreeing pre = true.
 Proof. split; vm_compute; reflexivity. Qed.
-Lemma refuted_casenick : dom witness_casenick = false /\ ends_agreeing witness_casenick = false.
+(* the two former refutation witnesses (findings F10, F10b, repaired) are now inside the domain and agree *)
+Lemma fixed_casenick : dom witness_casenick = true /\ ends_agreeing witness_casenick = true.
 Proof. split; vm_compute; reflexivity. Qed.
-Lemma refuted_uhnames : dom witness_uhnames = false /\ ends_agreeing witness_uhnames = false.
+Lemma fixed_uhnames : dom witness_uhnames = true /\ ends_agreeing witness_uhnames = true.
 Proof. split; vm_compute; reflexivity. Qed.
 Lemma refuted_intarg : dom witness_intarg = false /\ ends_agreeing witness_intarg = false.
 Proof. split; vm_compute; reflexivity. Qed.
@@ -95,6 +97,7 @@ Definition example_history : list action :=
    AMode n_TEST c_A [(true, 111, Some n_BAR); (false, 111, Some n_bar); (true, 98, Some mask1); (false, 98, Some mask2);
                      (true, 107, Some [107]); (true, 108, Some [49; 48]); (true, 116, None)];
    ATopic n_bar c_a [104; 105]; AChghost n_bar [118] [119]; AWho c_a; ANames c_A true false;
+   ANick n_bar n_BAR; ANames c_a true true; ANick n_Baz [98; 65; 90];
    AQuit n_BAR; ANick n_test n_Test2; APart n_Test2 [c_a]; AReset; AJoin n_test [c_b]; AKick n_Baz c_b [n_TEST]].
 Example example_in_domain_agrees :
   dom example_history = true /\ all_agree n_test p_test true false start bot_start example_history = true.
